@@ -101,6 +101,10 @@ func (c *Compiler) compileTryStmt(node *parser.TryStmt) error {
 	defer func() {
 		c.symbolTable = c.symbolTable.Parent(false)
 		c.emit(node, OpThrow, 0) // implicit re-throw
+		// the statement's handler stays on the VM's handler stack until the
+		// finally block ends, so statements nested in that block are one
+		// level deeper.
+		c.tryCatchIndex--
 	}()
 
 	optry := c.emit(node, OpSetupTry, 0, 0)
@@ -135,7 +139,6 @@ func (c *Compiler) compileTryStmt(node *parser.TryStmt) error {
 		}
 	}
 
-	c.tryCatchIndex--
 	// always emit OpSetupFinally to cleanup
 	if node.Finally != nil {
 		finallyPos = c.emit(node.Finally, OpSetupFinally)
